@@ -1,6 +1,7 @@
 /- C20 line-protocol driver: prints `model <TAB> spec` for each case line.
 
-   element kinds  t=[k,..]: 0 int, 1 instrumented (copy counted, move leaves -1), 2 move-only, 3 copy-only, 4 int&, 5 int const
+   element kinds  t=[k,..]: 0 int, 1 instrumented (copy counted, move leaves -1), 2 move-only, 3 copy-only, 4 int&, 5 int const,
+                  (pair lines only) 6 instrumented& , 7 instrumented const&   (construction binds, assignment assigns through)
    categories     0 l (lvalue), 1 c (const lvalue), 2 r (rvalue), 3 k (const rvalue)
 
    pair  op=cmp e=int|dbl a=[x,y] b=[u,v]                       -> six bits  == != < <= > >=   (dbl: 9 is NaN)
@@ -8,6 +9,9 @@
    tuple op=<O> t=[k,..] a=[..] b=[..]                          -> same;  op=eq -> bit
          O: dflt ctor ctorr copy move assign massign swap fswap selfswap make maker get getc getr getcr sb mft mftr fwd tie
             conv convr cassign cmassign (pair of int only)
+   pair  op=xassign|xmassign t=[kd1,kd2] u=[ks1,ks2] a=[x,y] b=[u,v]   -> r=- a=[..] b=[..] cp=N | n/a
+         converting assignment between pairs of DIFFERENT element kinds: `pair<kd1,kd2> a; pair<ks1,ks2> b;`
+         xassign: `a = as_const(b)`, xmassign: `a = move(b)`; n/a unless is_assignable_v<T&, U const&> resp. <T&, U> per element
    tuple op=apply q=Q c=C a=[..]   (q: tuple category, c: callee category, default 0)   -> r=N log=L
    tuple op=apply f=memfn q=Q a=[x] | f=memdata q=Q v=N   (pointer to member; the object is the first tuple element)
          further O: tieassign tiemassign gett gettr convp convpr (tuple from pair); conv.. for tuple: int elements widen/narrow
@@ -43,7 +47,8 @@ namespace Tetl.C20.Driver
 open Tetl Tetl.Proto Tetl.C20
 
 def ekOf : Nat → Option EK
-  | 0 => some .int | 1 => some .trk | 2 => some .mo | 3 => some .co | 4 => some .ref | 5 => some .cst | _ => none
+  | 0 => some .int | 1 => some .trk | 2 => some .mo | 3 => some .co | 4 => some .ref | 5 => some .cst
+  | 6 => some .tref | 7 => some .tcref | _ => none
 
 def catOf : Nat → Option Cat
   | 0 => some .l | 1 => some .c | 2 => some .r | 3 => some .k | _ => none
@@ -110,9 +115,32 @@ def applicable (isPair : Bool) (op : String) (ks : List EK) : Bool :=
   -- get<T>: every element type once (kinds name distinct types); through an rvalue: no reference element (libstdc++ 12 cannot
   -- compile get<T&>(pair&&), so the harness leaves reference kinds out)
   | "gett" => distinctKinds ks
-  | "gettr" => distinctKinds ks && ks.all (· != .ref)
+  | "gettr" => distinctKinds ks && ks.all (fun k => k != .ref && k != .tref && k != .tcref)
   | "dflt" => ks.all (fun k => k == .int || k == .cst)
   | _ => true
+
+/-- the element kinds 6 / 7 exist for pair lines only -/
+def pairOnly : EK → Bool
+  | .tref | .tcref => true
+  | _ => false
+
+/-- applicability of a converting assignment, per element (destination kind, source kind):
+    copy form `is_assignable_v<T&, U const&>`: the destination can be assigned to, both are (references to) objects of the same
+    class, and the class has a copy assignment;
+    move form `is_assignable_v<T&, U>`: `U` is handed on as `forward<U>`: an rvalue of the class, or - reference kinds - an
+    lvalue, which again needs the copy assignment (no reference kind of the move-only class exists) -/
+def convApplicable (move : Bool) (ks : List (EK × EK)) : Bool :=
+  ks.all fun (kd, s) => kd.assignable && kd.base == s.base && (move || s.base != .mo)
+
+/-- (model, spec) of a converting assignment between pairs of different kinds -/
+def convOp (op : String) (kd ks : List EK) (a b : List Int) : Option (Except Err Res × Res) :=
+  let e : List ElX := (kd.zip (ks.zip (a.zip b)))
+  match op with
+  | "xassign" =>
+    some (let m := convAssignAll e; .ok ⟨none, m.1, b, m.2⟩, let s := Spec.convAssign e; ⟨none, s.1, b, s.2⟩)
+  | "xmassign" =>
+    some (let m := convMoveAssignAll e; .ok ⟨none, m.1, m.2.1, m.2.2⟩, let s := Spec.convMoveAssign e; ⟨none, s.1, s.2.1, s.2.2⟩)
+  | _ => none
 
 /-- (model, spec) of a value operation -/
 def valueOp (op : String) (ks : List EK) (a b : List Int) : Option (Except Err Res × Res) :=
@@ -336,6 +364,16 @@ def step (st : DState) (l : Line) : DState × String :=
       | some ks =>
         if ks.length != a.length || a.length != b.length then bad
         else if (l.op == "pair" && a.length != 2) then bad
+        else if l.op != "pair" && ks.any pairOnly then bad
+        else if op == "xassign" || op == "xmassign" then
+          match kinds? l "u" with
+          | some us =>
+            if l.op != "pair" || us.length != 2 then bad
+            else if !convApplicable (op == "xmassign") (ks.zip us) then out "n/a" "n/a"
+            else match convOp op ks us a b with
+              | some (m, s) => out (fmtE Res.fmt m) s.fmt
+              | none => bad
+          | none => bad
         else if !applicable (l.op == "pair") op ks then out "n/a" "n/a"
         else match valueOp op ks a b with
           | some (m, s) => out (fmtE Res.fmt m) s.fmt
@@ -345,7 +383,7 @@ def step (st : DState) (l : Line) : DState × String :=
   | "tcat" =>
     match kinds? l "k", (l.nat? "q").bind catOf, l.natList? "ts", l.list? "v" with
     | some ks, some q, some ts, some v =>
-      if ts.sum != v.length || ks.length != v.length then bad
+      if ts.sum != v.length || ks.length != v.length || ks.any pairOnly then bad
       -- lvalue / const tuples are copied from: a move-only element does not compile
       else if q != .r && !ks.all (·.copyable) then out "n/a" "n/a" else
       let parts := splitBy ts v
